@@ -255,3 +255,40 @@ def _scaling(vc):
         vc.ensure("direction-0: microvolts -> temperature = inverse(uV / 1000)", r.value.items[0] == SymReal(G(x.e / 1000)))
     vc.ensure("c14/converted-to-double-before-scaling", r.value.dtype_ == np.dtype("float64"))
     vc.ensure("c13/raw-data-not-modified", not vc.st.ghost.get("purity_violations"), kind="frame")
+
+
+@harness("thermocouple_eval_elementwise", ["thermocouples.Thermocouple.celsius_to_mv",
+                                           "thermocouples.Thermocouple.mv_to_celsius"], ["C18"],
+         variants=[(t.upper(), t) for t in TYPES], timeout_ms=90000,
+         note="both conversions on a 2-element array of arbitrary reals: every element gets the value the scalar "
+              "conversion gives it (no decision is taken for the array as a whole)")
+def _eval_pair(vc):
+    from pyvc.npmodel import ListArr
+    t = vc.variant
+    st = vc.st
+    st.real_floats = True
+    tc, fwd, inv, exp = table(vc, t)
+    xs = [vc.real("x0"), vc.real("x1")]
+    for direction, pieces, method in (("forward", fwd, "celsius_to_mv"), ("inverse", inv, "mv_to_celsius")):
+        st.ghost["piecewise_nan_possible"] = []
+        arr = ListArr(list(xs), "float64")
+        out = vc.call_method(tc, method, arr)
+        vc.ensure(direction + "/no-exception", out.kind == "ret")
+        if out.kind != "ret":
+            continue
+        res = out.value
+        vc.ensure(direction + "/two-results", len(res) == 2)
+        for k, x in enumerate(xs):
+            for i, (lo, hi, cs) in enumerate(pieces):
+                inside = True
+                if lo is not None:
+                    inside = And(inside, x >= lo)
+                if hi is not None:
+                    inside = And(inside, x < hi)
+                expect = SymReal(poly_term(cs, x.e))
+                if direction == "forward" and exp is not None:
+                    E = z3.Function("EXP", z3.RealSort(), z3.RealSort())
+                    g = rv(exp[0]) * E(rv(exp[1]) * ((x.e - rv(exp[2])) * (x.e - rv(exp[2]))))
+                    expect = SymReal(z3.If(x.e >= 0, expect.e + g, expect.e))
+                vc.ensure("%s/element[%d]/piece[%d]/value-is-the-piece's-polynomial" % (direction, k, i),
+                          Implies(inside, res.items[k] == expect))
